@@ -12,6 +12,10 @@ type hent struct {
 	term string
 	sort string // sort of the stored component (not of the array)
 	idx  string // "" = one-level heap; otherwise the index sort of the second level (elements, map keys)
+	// term = base with stores at the object references in refs (syntactic set); used to merge
+	// heaps at control-flow joins without if-then-else over whole arrays
+	base string
+	refs []string
 }
 
 // epoch is created when a cut loop (or a contract call with unknown frame) havocs the
@@ -58,7 +62,7 @@ func (x *Exec) hget(h *Heap, key, sort string, idx string) string {
 		return e.term
 	}
 	t := x.baseFor(h.ep, key, sort, idx)
-	h.m[key] = hent{t, sort, idx}
+	h.m[key] = hent{term: t, sort: sort, idx: idx, base: t}
 	return t
 }
 
@@ -74,12 +78,29 @@ func (x *Exec) baseFor(ep *epoch, key, sort string, idx string) string {
 	}
 	b := x.g.Const("H"+itoa(ep.id)+":"+key, heapArraySort(sort, idx))
 	ep.bases[key] = b
-	ep.sorts[key] = hent{b, sort, idx}
+	ep.sorts[key] = hent{term: b, sort: sort, idx: idx, base: b}
 	return b
 }
 
-func (x *Exec) hset(h *Heap, key, sort string, idx string, term string) {
-	h.m[key] = hent{term, sort, idx}
+// hset records that the array of key is now term, obtained from the previous array by
+// a store at object reference ref ("" = unrelated term: it becomes a new base).
+func (x *Exec) hset(h *Heap, key, sort string, idx string, term string, ref string) {
+	old, ok := h.m[key]
+	if !ok || ref == "" || old.base == "" {
+		h.m[key] = hent{term: term, sort: sort, idx: idx, base: term}
+		return
+	}
+	refs := old.refs
+	found := false
+	for _, r := range refs {
+		if r == ref {
+			found = true
+		}
+	}
+	if !found {
+		refs = append(append([]string{}, refs...), ref)
+	}
+	h.m[key] = hent{term: term, sort: sort, idx: idx, base: old.base, refs: refs}
 }
 
 // havocAll starts a new epoch: every heap array becomes unknown.
@@ -142,23 +163,59 @@ func (x *Exec) mergeHeaps(conds []string, hs []*Heap) *Heap {
 	sort.Strings(ks)
 	for _, k := range ks {
 		meta := keys[k]
-		terms := make([]string, len(hs))
+		ents := make([]hent, len(hs))
 		same := true
+		sameBase := true
 		for i, h := range hs {
-			terms[i] = x.hget(h, k, meta.sort, meta.idx)
-			if terms[i] != terms[0] {
+			x.hget(h, k, meta.sort, meta.idx)
+			ents[i] = h.m[k]
+			if ents[i].term != ents[0].term {
 				same = false
+			}
+			if ents[i].base != ents[0].base || ents[i].base == "" {
+				sameBase = false
 			}
 		}
 		if same {
-			out.m[k] = hent{terms[0], meta.sort, meta.idx}
+			out.m[k] = ents[0]
 			continue
 		}
-		t := terms[len(terms)-1]
-		for i := len(terms) - 2; i >= 0; i-- {
-			t = ite(conds[i], terms[i], t)
+		if sameBase {
+			// all versions are the same base plus stores: rebuild the merged array as the base
+			// with one store per touched object, each holding the merged value at that object
+			var refs []string
+			seen := map[string]bool{}
+			for _, e := range ents {
+				for _, r := range e.refs {
+					if !seen[r] {
+						seen[r] = true
+						refs = append(refs, r)
+					}
+				}
+			}
+			if len(refs) <= 24 {
+				vs := meta.sort
+				if meta.idx != "" {
+					vs = arrSort(meta.idx, meta.sort)
+				}
+				t := ents[0].base
+				for _, r := range refs {
+					v := "(select " + ents[len(ents)-1].term + " " + r + ")"
+					for i := len(ents) - 2; i >= 0; i-- {
+						v = ite(conds[i], "(select "+ents[i].term+" "+r+")", v)
+					}
+					t = "(store " + t + " " + r + " " + x.g.Fresh(vs, v) + ")"
+				}
+				out.m[k] = hent{term: x.g.Fresh(heapArraySort(meta.sort, meta.idx), t), sort: meta.sort, idx: meta.idx, base: ents[0].base, refs: refs}
+				continue
+			}
 		}
-		out.m[k] = hent{x.g.Fresh(heapArraySort(meta.sort, meta.idx), t), meta.sort, meta.idx}
+		t := ents[len(ents)-1].term
+		for i := len(ents) - 2; i >= 0; i-- {
+			t = ite(conds[i], ents[i].term, t)
+		}
+		nt := x.g.Fresh(heapArraySort(meta.sort, meta.idx), t)
+		out.m[k] = hent{term: nt, sort: meta.sort, idx: meta.idx, base: nt}
 	}
 	return out
 }
